@@ -65,7 +65,7 @@ VARIANTS = [
     silent("c01-count-interpolated-directly",
            [(GE, '            output += generate_jaqal_value(statement.iterations) + " "', '            output += f"{statement.iterations} "')], P),
     fire("c01-parameter-str-removed",
-         [(PM, "    def __str__(self):\n        return self.name\n\n    def __eq__(self, other):\n        try:\n            return self.name == other.name and self.kind == other.kind", "    def __eq__(self, other):\n        try:\n            return self.name == other.name and self.kind == other.kind")],
+         [(PM, "    def __str__(self):\n        return self.name\n\n    def __eq__(self, other):\n        try:\n            if isinstance(other, AnnotatedValue)", "    def __eq__(self, other):\n        try:\n            if isinstance(other, AnnotatedValue)")],
          ("C01.2", "make_item_name"), P),
     fire("c01-count-depends-on-constant-value",
          [(GE, "        if statement.iterations != 1:", '        if getattr(statement.iterations, "value", statement.iterations) != 1:')],
